@@ -9,6 +9,7 @@
 #include <asmjit/a64.h>
 #include <asmjit/core/osutils_p.h>
 #include <atomic>
+#include <chrono>
 #include <thread>
 #include <set>
 #include <algorithm>
@@ -342,6 +343,30 @@ static uint64_t gen_program(unsigned prog, uint64_t seed) {
     a.bind(L1); a.ret(a64::x30);
     return digest_of(code);
   }
+  if (prog == 5) {            // an own JitRuntime per call with dual mapping: install, run and release a few functions.
+    // Threads share no allocator here - only the process-wide descriptor table and the VirtMem statics.
+    JitAllocator::CreateParams params;
+    params.options = JitAllocatorOptions::kUseDualMapping | JitAllocatorOptions::kImmediateRelease | JitAllocatorOptions::kUseMultiplePools;
+    JitRuntime rt(&params);
+    uint64_t h = 1469598103934665603ull;
+    unsigned n = 2 + (unsigned)r.below(3);
+    for (unsigned i = 0; i < n; i++) {
+      CodeHolder c2;
+      c2.init(rt.environment(), rt.cpu_features());
+      x86::Assembler a(&c2);
+      uint32_t k = uint32_t(r.below(1000000));
+      a.mov(x86::eax, k);
+      for (unsigned j = 0; j < (unsigned)r.below(40); j++) a.add(x86::eax, 1);
+      a.ret();
+      typedef int (*Fn)(void);
+      Fn fn = nullptr;
+      Error e1 = rt.add(&fn, &c2);
+      uint64_t res = (e1 == Error::kOk && fn) ? uint64_t(uint32_t(fn())) : 0xDEADull;
+      Error e2 = (e1 == Error::kOk) ? rt.release(fn) : Error::kOk;
+      h = (h ^ res) * 1099511628211ull; h = (h ^ uint64_t(e1)) * 1099511628211ull; h = (h ^ uint64_t(e2)) * 1099511628211ull;
+    }
+    return h;
+  }
   if (prog == 3) {            // AArch64 compiler: virtual registers of several types (shared tables / caches behind new_reg)
     code.init(Environment(Arch::kAArch64));
     a64::Compiler cc(&code);
@@ -402,14 +427,17 @@ static uint64_t gen_program(unsigned prog, uint64_t seed) {
 
 static void run_gen(FILE* out, unsigned rounds, unsigned nthreads, uint64_t seed) {
   // warm-up (the property's premise: host information initialised)
-  (void)CpuInfo::host(); (void)VirtMem::info(); gen_program(0, 1); gen_program(1, 1); gen_program(2, 1); gen_program(3, 1); gen_program(4, 1);
+  (void)CpuInfo::host(); (void)VirtMem::info(); gen_program(0, 1); gen_program(1, 1); gen_program(2, 1); gen_program(3, 1); gen_program(4, 1); gen_program(5, 1);
   vj::W w;
   w.beginObj().kv("e", "Reset").kv("threads", nthreads).kv("mode", "gen").endObj().emit(out);
   for (unsigned rd = 0; rd < rounds; rd++) {
     struct Job { unsigned prog; uint64_t seed; uint64_t conc = 0, solo = 0; };
     std::vector<std::vector<Job>> jobs(nthreads);
     vj::Rng r(seed + rd);
-    for (unsigned t = 0; t < nthreads; t++) for (unsigned k = 0; k < 6; k++) jobs[t].push_back(Job{(unsigned)r.below(5), r.next() % 100000});
+    for (unsigned t = 0; t < nthreads; t++) for (unsigned k = 0; k < 6; k++) jobs[t].push_back(Job{(unsigned)r.below(6), r.next() % 100000});
+    // a storm of per-thread dual-mapped runtimes in the last round: descriptor / mapping handling of independent
+    // runtimes must not interfere (windows of a few instructions need many overlapping attempts)
+    // (the time-boxed storm of dual-mapped runtimes follows the rounds: run_dualstorm)
     std::vector<std::thread> th;
     std::atomic<int> go{0};
     for (unsigned t = 0; t < nthreads; t++) th.emplace_back([&, t] { while (!go.load()) {} for (auto& j : jobs[t]) j.conc = gen_program(j.prog, j.seed); });
@@ -484,6 +512,43 @@ static void run_cold(FILE* out, unsigned trials, unsigned nthreads) {
   }
 }
 
+// Independent dual-mapped runtimes hammered by all threads for a fixed time: every add / call / release must succeed and
+// return the value the code was generated for (self-checking, so no solo re-run is needed). Windows of a few instructions
+// in descriptor handling need many overlapping attempts.
+static void run_dualstorm(FILE* out, unsigned nthreads, uint64_t seed, unsigned millis) {
+  std::vector<uint64_t> ok(nthreads, 0), bad(nthreads, 0);
+  std::vector<std::thread> th;
+  std::atomic<int> go{0};
+  for (unsigned t = 0; t < nthreads; t++) th.emplace_back([&, t] {
+    vj::Rng r(seed * 977u + t);
+    while (!go.load()) {}
+    auto t0 = std::chrono::steady_clock::now();
+    while (std::chrono::duration_cast<std::chrono::milliseconds>(std::chrono::steady_clock::now() - t0).count() < (long long)millis) {
+      JitAllocator::CreateParams params;
+      params.options = JitAllocatorOptions::kUseDualMapping | JitAllocatorOptions::kImmediateRelease | ((t & 1) ? JitAllocatorOptions::kUseMultiplePools : JitAllocatorOptions::kNone);
+      JitRuntime rt(&params);
+      for (unsigned i = 0; i < 3; i++) {
+        CodeHolder c2;
+        c2.init(rt.environment(), rt.cpu_features());
+        x86::Assembler a(&c2);
+        uint32_t k = uint32_t(r.below(1000000));
+        a.mov(x86::eax, k); a.add(x86::eax, 7); a.ret();
+        typedef int (*Fn)(void);
+        Fn fn = nullptr;
+        Error e1 = rt.add(&fn, &c2);
+        bool good = e1 == Error::kOk && fn && uint32_t(fn()) == k + 7 && rt.release(fn) == Error::kOk;
+        if (good) ok[t]++; else bad[t]++;
+      }
+    }
+  });
+  go.store(1);
+  for (auto& t : th) t.join();
+  vj::W w;
+  for (unsigned t = 0; t < nthreads; t++)
+    w.beginObj().kv("e", "Gen").kv("t", t + 1).kv("prog", 6).kv("seed", (long long)(ok[t] & 0x3FFFFFFF))
+      .kv("conc", (long long)(bad[t] & 0x3FFFFFFF)).kv("solo", 0).kv("equal", bad[t] == 0).endObj().emit(out);
+}
+
 int main(int argc, char** argv) {
   if (argc < 5) return 3;
   std::string mode = argv[1];
@@ -496,6 +561,7 @@ int main(int argc, char** argv) {
     for (unsigned x = 0; x < nexec; x++) run_alloc_exec(out, nthreads, nops, seed, x);
   } else if (mode == "gen") {
     run_gen(out, (unsigned)atoi(argv[3]), (unsigned)atoi(argv[4]), seed);
+    run_dualstorm(out, 12, seed, (unsigned)atoi(argv[3]) <= 3 ? 2500 : 12000);
   } else if (mode == "cold") {
     run_cold(out, (unsigned)atoi(argv[3]), (unsigned)atoi(argv[4]));
   }
